@@ -35,3 +35,15 @@ claim('C11', 'CBMC on the real call_heart_beat/set_heart_beat with one scripted 
       'Solver-decided against a lock-step reference scheduler: at most one call per tick, no call after disable/destruct, exactly-once when due in completed ticks, countdown/interval bookkeeping, table invariant, error switches off only the failing object, flag stops the round.',
       'quick: 2 objects; thorough: 3 objects. One acting callback per round (incl. enable-then-disable); table growth path cut; reset/call_out part of the tick cut.',
       'DESIGN.md 5/C11')
+claim('C05', 'CBMC on the real save_context / restore_context / pop_context with real frame and stack operations from symbolic register values and value kinds',
+      'Solver-decided: after any evolution of 0..3 frames of any kind, 0..3 pushed values (numbers, strings, arrays, error handlers), a nested context and a changed command giver, the landing-site code restores every VM register, the value and call stacks, the command giver and the handler chain, releases every pushed value once and runs error handlers once.',
+      'longjmp is modelled by running the landing-site code; stack depths are concrete per run (case split); a catch point on an empty control stack is outside (pointer before object); error_handler guard resets and the other setjmp users are not yet covered.',
+      'DESIGN.md 5/C05')
+claim('C18', 'CBMC round trip of the real line-run encoder (switch_to_line) through the real decoder (find_line) for every pc; real translate_absolute_line vs the generator record',
+      'Solver-decided: for <=3 statements with code sizes 0..600 at arbitrary lines, every pc inside the code maps to the line of the covering statement; for any file table of <=4 segments every absolute line maps to the right (file, line), and lines beyond the table are errors.',
+      'Which line the generator attributes to a node, include handling in the lexer, and the trace walk (dump_trace) are outside.',
+      'DESIGN.md 5/C18')
+claim('C20', 'CBMC on the real f_seteuid / f_export_uid with a nondeterministic master, and on the real clone_object / load_object up to the first object-creating call',
+      'Solver-decided from any uid/euid assignment of 3 objects: euid changes only when the master approves (or to 0), uid only by export from a non-zero euid onto a zero-euid object, nothing else changes; with euid 0 (not the master) clone_object and load_object reach no blueprint lookup, file access or allocation.',
+      'give_uid_to_object (creator_file policy) is not yet covered; code after the gate is stubbed.',
+      'DESIGN.md 5/C20')
